@@ -203,34 +203,76 @@ func c07R1(p *Prog, r *Report) {
 				r.Check(direct, rule, "socks5.serverHandleUsernamePassword:success-needs-user-and-password", p.posStr(fc.G.V[sret].Node.Pos()), "success is unreachable from the unknown-user and wrong-password edges", "the success return is reachable although the user is unknown or the password differs")
 				continue
 			}
-			var setBad []int
-			cleared := false
-			for _, d := range fc.Defs(statusObj) {
+			// Value of the status at its test, on every path that starts at a bad edge (unknown user
+			// / wrong password): the last constant assigned to it on the way must be non-zero; if
+			// nothing is assigned on the way, every definition that reaches the bad condition must
+			// be a non-zero constant (the "guilty until proven" form: status := 1; if ok && equal
+			// { status = 0 }).
+			constOfDef := func(d int) (int64, bool) {
+				if d == fc.G.Entry {
+					return 0, false
+				}
 				switch n := fc.G.V[d].Node.(type) {
 				case *ast.AssignStmt:
-					if k, isC := constInt(info, n.Rhs[0]); isC && k != 0 {
-						setBad = append(setBad, d)
-					} else if isC && k == 0 {
-						// an assignment back to zero after a failure was recorded
-						for _, sb := range fc.Defs(statusObj) {
-							if sb != d && fc.G.ReachAfter(sb, nil, nil)[d] {
-								cleared = true
+					if len(n.Lhs) == len(n.Rhs) {
+						for i, l := range n.Lhs {
+							if objOf(info, l) == statusObj {
+								e := ast.Unparen(n.Rhs[i])
+								if inner, okc := isConversionExpr(info, e); okc {
+									e = inner
+								}
+								return constInt(info, e)
 							}
 						}
 					}
+				case *ast.ValueSpec:
+					if len(n.Values) == 0 {
+						return 0, true
+					}
 				}
+				return 0, false
 			}
-			isSet := map[int]bool{}
-			for _, s := range setBad {
-				isSet[s] = true
+			isDef := map[int]bool{}
+			for _, d := range fc.Defs(statusObj) {
+				isDef[d] = true
 			}
-			ok := len(badEdges) >= 2 && !cleared
+			tests := map[int]bool{}
+			for _, pe := range passEdges {
+				tests[pe.From] = true
+			}
+			ok := len(badEdges) >= 2
 			for _, be := range badEdges {
-				// from each bad edge, the status test is not reachable without passing a failure assignment
-				reach := fc.G.Reach([]int{be.To}, func(v *Vertex) bool { return isSet[v.ID] }, nil)
-				for _, pe := range passEdges {
-					if reach[pe.From] {
-						ok = false
+				// last-definition tracking: state = (vertex, last def or -1)
+				type st struct{ v, d int }
+				seen := map[st]bool{}
+				stack := []st{{be.To, -1}}
+				for len(stack) > 0 {
+					cur := stack[len(stack)-1]
+					stack = stack[:len(stack)-1]
+					if seen[cur] {
+						continue
+					}
+					seen[cur] = true
+					last := cur.d
+					if isDef[cur.v] {
+						last = cur.v
+					}
+					if tests[cur.v] {
+						if last >= 0 {
+							if k, isC := constOfDef(last); !isC || k == 0 {
+								ok = false
+							}
+						} else {
+							for _, d := range fc.ReachingDefs(be.From, statusObj) {
+								if k, isC := constOfDef(d); !isC || k == 0 {
+									ok = false
+								}
+							}
+						}
+						continue
+					}
+					for _, e := range fc.G.V[cur.v].Succs {
+						stack = append(stack, st{e.To, last})
 					}
 				}
 			}
@@ -1045,4 +1087,13 @@ func accumulatorCarried(fc *FuncCtx, o types.Object, at int) bool {
 		return false
 	}
 	return walk(at)
+}
+
+// isConversionExpr: e is a conversion T(x); returns x.
+func isConversionExpr(info *types.Info, e ast.Expr) (ast.Expr, bool) {
+	c, ok := ast.Unparen(e).(*ast.CallExpr)
+	if !ok {
+		return nil, false
+	}
+	return isConversion(info, c)
 }
